@@ -9,6 +9,8 @@ what makes an accepting run evidence for the property rather than for the checke
 That `WF` holds after EVERY history and crash is decided by running the checker on the images
 of sampled histories (labelled PARTIAL): the block-level operations are not modelled.
 -/
+import GoNfsd.Lemmas.InodeTable
+import GoNfsd.Props.C10
 import GoNfsd.Lemmas.DirData
 import GoNfsd.Model.Fsck
 import GoNfsd.Lemmas.FsckMeta
@@ -504,5 +506,32 @@ example :
   decide +kernel
 
 end dirblocks
+
+/-! ### the inode table as disk bytes (model M7i, on the layout regenerated from super/super.go) -/
+section inodetable
+open GoNfsd.Model.InodeTable GoNfsd.Gen.Super GoNfsd.Model.Codec
+
+/-- The slot `super.Inum2Addr` gives an inode lies inside one block of the inode table (from
+    `InodeStart`, below `DataStart`), and the slots of two different inodes never overlap — for
+    every disk size and every pair of inode numbers. -/
+theorem inode_slots_do_not_overlap (fs : FsSuper) (i j : Nat) (hi : i < fs.NInode) (h : i ≠ j) :
+    (slot fs i).2 + INODESZ ≤ BlockSize ∧
+    (fs.InodeStart ≤ (slot fs i).1 ∧ (slot fs i).1 < fs.DataStart) ∧
+    ((slot fs i).1 ≠ (slot fs j).1 ∨ (slot fs i).2 + INODESZ ≤ (slot fs j).2 ∨ (slot fs j).2 + INODESZ ≤ (slot fs i).2) :=
+  ⟨slot_in_block fs i, slot_in_table fs i hi, slots_disjoint fs i j h⟩
+
+/-- `WriteInode` of one inode: that inode reads back (through the codec) as what was written,
+    EVERY OTHER inode reads as before, and no block outside the table — no data block, no bitmap
+    block, no log block — changes a byte. -/
+theorem writing_one_inode_changes_no_other (d : Disk) (fs : FsSuper) (i : Nat) (x : GoNfsd.Model.Codec.DInode) (hx : x.wf)
+    (hi : i < fs.NInode) :
+    decodeInode (readSlot (writeInode d fs i (encodeInode x)) fs i) = x ∧
+    (∀ j, j ≠ i → readSlot (writeInode d fs i (encodeInode x)) fs j = readSlot d fs j) ∧
+    (∀ b o, (b < fs.InodeStart ∨ fs.DataStart ≤ b) → writeInode d fs i (encodeInode x) b o = d b o) := by
+  obtain ⟨h1, h2⟩ := inode_table_write_read d fs i x hx (GoNfsd.Props.C10.inode_roundtrip x hx)
+    (GoNfsd.Props.C10.inode_encoding_size x hx)
+  exact ⟨h1, h2, fun b o hb => write_leaves_other_blocks d fs i _ hi b hb o⟩
+
+end inodetable
 
 end GoNfsd.Props.C04
